@@ -252,7 +252,9 @@ class CondensedReactionGraph(MolGraph):
                 attrs = self._atom_attrs[atom]
             else:
                 attrs = {"atom_type": self._atom_attrs[atom]["atom_type"]}
-            product.add_atom(atom, **attrs)
+            # (no **attrs: an attribute may be called 'atom' or 'self')
+            product.add_atom(atom, attrs["atom_type"])
+            product._atom_attrs[atom].update(attrs)
         for bond in self.bonds:
             bond_reaction = self._bond_attrs[bond].get("reaction", None)
             if bond_reaction is None or bond_reaction == Change.BROKEN:
@@ -261,7 +263,8 @@ class CondensedReactionGraph(MolGraph):
                     attrs.pop("reaction", None)
                 else:
                     attrs = {}
-                product.add_bond(*bond, **attrs)
+                product.add_bond(*bond)
+                product._bond_attrs[bond].update(attrs)
         return product
 
     def product(self, keep_attributes: bool = True) -> MolGraph:
@@ -280,7 +283,9 @@ class CondensedReactionGraph(MolGraph):
                 attrs = self._atom_attrs[atom]
             else:
                 attrs = {"atom_type": self._atom_attrs[atom]["atom_type"]}
-            product.add_atom(atom, **attrs)
+            # (no **attrs: an attribute may be called 'atom' or 'self')
+            product.add_atom(atom, attrs["atom_type"])
+            product._atom_attrs[atom].update(attrs)
         for bond in self.bonds:
             bond_reaction = self._bond_attrs[bond].get("reaction", None)
             if bond_reaction is None or bond_reaction == Change.FORMED:
@@ -289,7 +294,8 @@ class CondensedReactionGraph(MolGraph):
                     attrs.pop("reaction", None)
                 else:
                     attrs = {}
-                product.add_bond(*bond, **attrs)
+                product.add_bond(*bond)
+                product._bond_attrs[bond].update(attrs)
         return product
 
     def _ts(self, keep_attributes: bool = True) -> MolGraph:
